@@ -15,11 +15,12 @@ Inductive case_C07 :=
             (base : json) (variants : list (spelling * obs6))             (* what each spelling returned *)
 | CaseCursor (jobs : list job) (regex : list ((str * str) * bool)) (flt : json)
              (len : nat) (listed : list str) (by_index : list (option str))     (* cursor[i] for i < len *)
-             (slice : list str) (slice_lo slice_hi : nat)
+             (slices : list (((option Z * option Z) * Z) * list str))  (* (start, stop, step) -> ids of cursor[start:stop:step] *)
              (contains : list (str * bool))                                (* job id -> (job in cursor) *)
              (outsiders : list bool)                                       (* uninitialised jobs: in cursor? *)
 | CaseGroup (jobs : list job) (regex : list ((str * str) * bool)) (order : list str)
-            (flt : json) (single : bool) (keys : list str) (default : option json) (o : gobs).
+            (flt : json) (single : bool) (keys : list str) (default : option json) (o : gobs)
+            (cursor_ids : option (list str)).   (* what iterating the same cursor yields; None: it raises *)
 
 Fixpoint tab_lookup {A} (t : list (str * A)) (k : str) : option A :=
   match t with
@@ -55,7 +56,29 @@ Definition obs_same (a b : obs6) : bool :=
 Fixpoint nodup_str (l : list str) : bool :=
   match l with [] => true | x :: r => negb (str_mem x r) && nodup_str r end.
 
-Definition slice_of {A} (l : list A) (lo hi : nat) : list A := firstn (hi - lo) (skipn lo l).
+(* Python's list slicing l[start:stop:step], step <> 0 (PySlice_AdjustIndices) *)
+Definition slice_bounds (len step : Z) (start stop : option Z) : Z * Z :=
+  let lower := if (step <? 0)%Z then (-1)%Z else 0%Z in
+  let upper := if (step <? 0)%Z then (len - 1)%Z else len in
+  let norm (x : Z) := if (x <? 0)%Z then Z.max (x + len) lower else Z.min x upper in
+  (match start with None => if (step <? 0)%Z then upper else lower | Some x => norm x end,
+   match stop with None => if (step <? 0)%Z then lower else upper | Some x => norm x end).
+
+Fixpoint take_idx {A} (fuel : nat) (l : list A) (i e step : Z) : list A :=
+  match fuel with
+  | O => []
+  | Datatypes.S f =>
+      if (if (0 <? step)%Z then (i <? e)%Z else (e <? i)%Z) then
+        match nth_error l (Z.to_nat i) with
+        | Some x => x :: take_idx f l (i + step)%Z e step
+        | None => []
+        end
+      else []
+  end.
+
+Definition py_slice {A} (l : list A) (start stop : option Z) (step : Z) : list A :=
+  let '(s, e) := slice_bounds (Z.of_nat (length l)) step start stop in
+  take_idx (length l) l s e step.
 
 (* reference data for groupby: the job's own value under a (namespace-prefixed, dotted) key *)
 Definition gb_own_value (j : job) (key : str) : option json :=
@@ -120,12 +143,12 @@ Definition mismatch_C07 (c : case_C07) : bool :=
   match c with
   | CaseSpell jobs regex floats jsons base variants =>
       negb (forallb (fun v => obs_matches (run_spelling regex floats jsons jobs (fst v)) (snd v)) variants)
-  | CaseCursor jobs regex flt len listed by_index slice lo hi contains outsiders =>
+  | CaseCursor jobs regex flt len listed by_index slices contains outsiders =>
       match find_job_ids (regex_lookup regex) isclose_dy FUEL jobs flt with
       | Ok ids => negb (set_eqb ids listed)
       | Err _ => true
       end
-  | CaseGroup jobs regex order flt single keys default o =>
+  | CaseGroup jobs regex order flt single keys default o _ =>
       match groupby_model (regex_lookup regex) isclose_dy FUEL jobs order flt single keys default, o with
       | GbGroups g, GObsGroups g' => negb (groups_eqb g g')
       | GbUnsortable, GObsGroups _ => false
@@ -150,17 +173,21 @@ Definition holds_C07 (c : case_C07) : bool :=
             match o0 with ObsIds _ => true | ObsExn _ => false end &&
             forallb (fun v => obs_same o0 (snd v)) r
         end
-  | CaseCursor jobs regex flt len listed by_index slice lo hi contains outsiders =>
+  | CaseCursor jobs regex flt len listed by_index slices contains outsiders =>
       Nat.eqb len (length listed) && nodup_str listed &&
       list_eqb (fun a b => match a, b with Some x, Some y => str_eqb x y | None, None => true | _, _ => false end)
                by_index (map Some listed) &&
-      list_eqb str_eqb slice (slice_of listed lo hi) &&
+      forallb (fun sl => match fst sl with
+                         | (st, sp, step) => list_eqb str_eqb (snd sl) (py_slice listed st sp step)
+                         end) slices &&
       forallb (fun jc => Bool.eqb (snd jc) (mem (fst jc) listed)) contains &&
       forallb (fun j => str_mem (j_id j) (map fst contains)) jobs &&
       forallb negb outsiders
-  | CaseGroup jobs regex order flt single keys default o =>
-      match ref_selected regex jobs flt with
-      | None => true                                   (* cursor filter itself ill-typed: no claim *)
+  | CaseGroup jobs regex order flt single keys default o cursor_ids =>
+      (* "partitions exactly the jobs the cursor selects": the selection is what iterating the cursor
+         yields (whether THAT is the right set is C06's claim, not C07's) *)
+      match option_map (fun ids => filter (fun j => str_mem (j_id j) ids) jobs) cursor_ids with
+      | None => true                                   (* the cursor itself raises: no claim *)
       | Some sel =>
           let members := filter (fun j => match gb_expected_label single keys default j with
                                           | Some _ => true | None => false end) sel in
